@@ -34,6 +34,8 @@ RULE = (
     "recording wrapper around replacement/single_pass/dynamic/proportion x None/by_label x smoothing / built-in string / "
     "degenerate, with 0-3 planned faults (forced draws, interference) and reseeds. Non-trivial: every run; distinct = distinct "
     "abstract trace signatures."
+    "Later rounds added: list/tuple support points, class sizes 41-130 and 280-420, float32/unsigned dtypes, re-entrant and raising samplers (exception types), "
+    "user-subclass sources with their own bootstrap_sample, unhashable samplers, callable sampler x stratification flag, resample-count check, state-leak probes, alpha up to 0.95."
 )
 COMPONENTS = {
     "real": ["roc_curve.roc_with_ci, _find_support_thresholds, _apply_rule_of_three, _aggregate_rectangles, experimental.roc_ci.* "
